@@ -2,14 +2,19 @@
 M: ClusterFilter.tla per-cluster loop for every contiguous labelling, score table and hull pattern (<=4 knees quick,
    5 thorough): result satisfies ClusterProps; negative instance: pick the worst-ranked member.
 T: filter_clusters (4 linkages x thresholds x left/linear/right/hull) and filter_clusters_corners on real curves with
-   tables from the library's own clustering / ranking / hull primitives, judged by Trace_Cluster."""
+   tables from the library's own clustering / ranking / hull primitives, judged by Trace_Cluster.
+T (scale): the same calls on production-size curves (300..10^5 points, up to ~900 knees, hundreds of clusters, clusters
+   spanning tens of thousands of curve points), per-knee tables only, judged by Trace_ClusterScale (the clauses of
+   ClusterProps in linear time) and cross-checked against Trace_Cluster where the latter can take the case."""
 import itertools
 import math
+import random
 
 import numpy as np
 
 from harness import curves, monitor, numeric, par
 from harness import enums
+from harness import scale as sc
 
 LINKAGES = ["single_linkage", "complete_linkage", "centroid_linkage", "average_linkage"]
 MODES = ["left", "linear", "right", "hull", "corner"]
@@ -161,16 +166,383 @@ def _selftests():
     return out
 
 
+# ---------------------------------------------------------------------------------------------------- scale family
+# Production-size inputs.  A case is a RECIPE (shape, n, seed, options) - never a point list - so that items, metas and
+# replay files stay small; the tables that reach TLC are per KNEE (labels, score ranks, position of each returned index),
+# never per curve point.
+SC_SHAPES = ["jitter", "texture", "mrc", "stair", "convex", "valley", "spikes", "walk"]
+SC_LAYOUTS = ["marks", "far", "runs", "many"]
+SC_T = [0.002, 0.02, 0.1, 0.3, 0.7, 1.0, 1.5]
+SC_RANKED = ["left", "linear", "right"]
+EPS = 2.0 ** -52
+
+
+def _texture(n, rng):
+    """Piecewise-linear trend (3..6 pieces, mostly decreasing) with 1..3 sections carrying a zero-mean PERIODIC texture
+    (period 2..16, amplitude from negligible to larger than the section's drop): the fit quality of a segment that
+    covers such a section depends on every sample of it (a strided / decimated / truncated evaluation sees a line)."""
+    cuts = sorted(rng.sample(range(n // 16, n - n // 16), rng.randint(2, 5)))
+    b = [0] + cuts + [n]
+    slope = np.empty(n)
+    for lo, hi in zip(b, b[1:]):
+        slope[lo:hi] = rng.choice([-4.0, -2.0, -1.0, -1.0, -0.5, -0.25, -0.125, 0.25, 1.0]) * (1000.0 / n)
+    y = 2000.0 + np.cumsum(slope)
+    marks = list(cuts)
+    segs = list(zip(b, b[1:]))
+    rng.shuffle(segs)
+    for lo, hi in segs[:rng.randint(1, min(3, len(segs)))]:
+        if hi - lo < 8:
+            continue
+        a = lo + rng.randrange(0, (hi - lo) // 4) + 1
+        e = hi - rng.randrange(0, (hi - lo) // 4)
+        p = rng.choice([2, 2, 3, 4, 5, 7, 8, 16])
+        amp = rng.choice([0.5, 5.0, 50.0, 150.0, 300.0])
+        j = np.arange(a, e)
+        y[j] += amp * np.where(j % p == 0, 1.0, -1.0 / (p - 1))
+        marks += [a - 1, e]
+    return y, marks
+
+
+def _sc_build(r):
+    """recipe -> (points (n, 2) float64 with strictly increasing x and y >= 0, structural indices usable as knees)"""
+    n, shape = r["n"], r["shape"]
+    rng = random.Random(r["seed"])
+    marks = []
+    if shape == "jitter":          # straight line (either direction) with an alternating jitter on a..b-1
+        a, b = r["a"], r["b"]
+        P = sc.jitter_line(n, a, b, r["amp"], slope=r["dir"] * 800.0 / n, top=1000.0 if r["dir"] < 0 else 100.0)
+        marks = [a - 1, b]
+    elif shape == "texture":
+        y, marks = _texture(n, rng)
+        P = sc._xy(y)
+    elif shape == "mrc":
+        P = sc.mrc(n, rng, knees=rng.randint(3, 9))
+        marks = [int(v) + 1 for v in np.where(np.diff(P[:, 1]) < -1.0)[0]]
+    elif shape == "stair":
+        steps = rng.choice([5, 12, 40])
+        P = sc.staircase(n, steps, rng, grow=rng.random() < 0.3, jitter=rng.choice([0, 3, 3]))
+        w = n // max(1, min(steps, n // 4))
+        marks = [s * w for s in range(1, max(1, min(steps, n // 4)))]
+    elif shape == "convex":
+        corners = rng.choice([3, 8, 30])
+        P = sc.convex_pl(n, corners)
+        w = n // (max(1, min(corners, n // 3)) + 1)
+        marks = [c * w for c in range(1, max(1, min(corners, n // 3)) + 1)]
+    elif shape == "valley":
+        P = sc.valley(n, rng)
+        marks = [int(np.argmin(P[:, 1]))]
+    elif shape == "spikes":
+        P = sc.spikes(n, period=rng.choice([3, 4, 5, 8]))
+    elif shape == "walk":          # random walk with a downward drift (numpy's PCG64 stream is stable across versions)
+        g = np.random.Generator(np.random.PCG64(r["seed"]))
+        y = np.cumsum(g.normal(-0.05, 1.0, n))
+        P = sc._xy(np.floor(y * 256.0) / 256.0)
+    else:
+        raise ValueError(shape)
+    P = np.array(P, dtype=float)
+    if P[:, 1].min() < 0:
+        P[:, 1] -= P[:, 1].min()
+    if r.get("xs") == "ragged":      # uneven, exactly representable spacing (the linkages work on x distances)
+        steps = np.array([rng.choice([0.5, 1.0, 1.0, 2.0, 4.0]) for _ in range(64)])
+        P[:, 0] = np.concatenate([[0.0], np.cumsum(sc.tile(steps, n - 1))])
+    return np.ascontiguousarray(P), sorted(set(m for m in marks if 1 <= m <= n - 2))
+
+
+def _sc_knees(rng, n, marks, layout):
+    """interior knee subsets (strictly increasing, 1..n-2)"""
+    lo, hi = 1, n - 2
+    ks = set()
+    if layout == "marks":          # the structural points themselves (and their neighbours): foot / top of every feature
+        for m in (marks if len(marks) <= 40 else rng.sample(marks, 40)):
+            ks.add(m)
+            if rng.random() < 0.3:
+                ks.add(min(hi, max(lo, m + rng.choice([-2, -1, 1, 2]))))
+        while len(ks) < 3:
+            ks.add(rng.randint(lo, hi))
+    elif layout == "far":          # a handful of knees, each thousands of points from the next on a long curve
+        for m in rng.sample(marks, min(len(marks), rng.randint(0, 3))):
+            ks.add(m)
+        want = rng.randint(3, 9)
+        tries = 0
+        while len(ks) < want and tries < 200:
+            tries += 1
+            k = rng.randint(lo, hi)
+            if all(abs(k - o) >= n // 40 for o in ks):
+                ks.add(k)
+    elif layout == "runs":         # runs of adjacent knees far apart + singles
+        for _ in range(rng.randint(2, 5)):
+            s = rng.choice(marks) if marks and rng.random() < 0.5 else rng.randint(lo, hi)
+            for k in range(s, s + rng.randint(3, 12)):
+                if lo <= k <= hi:
+                    ks.add(k)
+        for _ in range(rng.randint(0, 4)):
+            ks.add(rng.randint(lo, hi))
+    else:                          # many knees: hundreds of clusters for small t, one huge cluster for large t
+        cap = max(40, min(900, 16000000 // n, (n - 2) // 2))
+        ks = set(rng.sample(range(lo, hi + 1), rng.randint(min(40, cap), cap)))
+    return sorted(ks)
+
+
+def _corr2_ld(x, y):
+    """squared Pearson correlation of a segment in extended precision (two-pass, centred), and a generous bound on the
+    absolute error a binary64 evaluation of the same quantity may carry: ~ m * eps * (conditioning of the two centrings)"""
+    m = len(x)
+    if m <= 2:
+        return 1.0, 0.0
+    xl = np.asarray(x, dtype=np.longdouble)
+    yl = np.asarray(y, dtype=np.longdouble)
+    xc = xl - xl.mean()
+    yc = yl - yl.mean()
+    sxx, syy, sxy = float((xc * xc).sum()), float((yc * yc).sum()), float((xc * yc).sum())
+    if not (sxx > 0 and syy > 0):
+        return float("nan"), float("inf")
+    kx = math.sqrt(float((xl * xl).sum()) / sxx)
+    ky = math.sqrt(float((yl * yl).sum()) / syy)
+    return min(1.0, sxy * sxy / (sxx * syy)), 16.0 * m * EPS * (kx + ky)
+
+
+def _sc_scores(P, cl, mode):
+    """the ranking score of the property for one cluster (as _indep_scores, extended precision) -> (scores, noise):
+    noise is the absolute uncertainty below which two scores are not told apart (None: ill-conditioned, judge nothing)"""
+    x, y = P[:, 0], P[:, 1]
+    j, last = cl[0], cl[-1]
+    peak = max(y[k] for k in cl)
+    fit, w, err = [], [], 0.0
+    for k in cl:
+        fl, el = _corr2_ld(x[j:k + 1], y[j:k + 1]) if mode != "right" else (0.0, 0.0)
+        fr, er = _corr2_ld(x[k:last], y[k:last]) if mode != "left" else (0.0, 0.0)
+        fit.append(fl if mode == "left" else fr if mode == "right" else (fl + fr) / 2.0)
+        err = max(err, el, er)
+        w.append(abs(peak - y[k]))
+    sw = math.fsum(w)
+    if sw != 0:
+        w = [v / sw for v in w]
+    vals = [f * v for f, v in zip(fit, w)]
+    if any(math.isnan(v) or math.isinf(v) for v in vals) or not err < 1e-6:
+        return vals, None
+    return vals, max(1e-9, err) * max(max(w), 1e-300)
+
+
+def _record_scale(item):
+    import kneeliverse.postprocessing as pp
+    import kneeliverse.clustering as clustering
+    import kneeliverse.knee_ranking as kr
+    import kneeliverse.convex_hull as ch
+    cid, recipe, knees, linkage, t, mode = item
+    P, _ = _sc_build(recipe)
+    n = len(P)
+    Pcall = P.astype(np.int64) if recipe.get("int") and np.all(P == np.floor(P)) else P
+    knees = np.array(knees, dtype=int)
+    link = getattr(clustering, linkage)
+    budget, wall = monitor.quad(n, 8), 300 + n // 100     # hang protection only: no returning run comes near either
+    if mode == "corner":
+        out, val, _ = monitor.call(pp.filter_clusters_corners, (Pcall, knees, link, t), budget=budget, wall=wall)
+    else:
+        out, val, _ = monitor.call(pp.filter_clusters, (Pcall, knees, link, t, enums.pick(kr.ClusterRanking, mode)), budget=budget, wall=wall)
+    case = {"id": cid, "mode": mode, "outcome": out, "knees": [int(k) for k in knees], "result": [], "pos": [],
+            "lab": [], "score": [], "hullSpan": []}
+    meta = {"scale": recipe, "knees": case["knees"], "linkage": linkage, "t": t, "mode": mode, "cid": cid, "n": n,
+            "skipped": 0, "judged": 0, "wide": 0, "maxspan": 0}
+    if out == "returned":
+        case["result"] = [int(v) for v in np.asarray(val).tolist()]
+        where = {k: j + 1 for j, k in enumerate(case["knees"])}
+        case["pos"] = [where.get(v, 0) for v in case["result"]]
+    else:
+        meta["error"] = val
+    lab = [int(v) for v in link(P[knees], t).tolist()]
+    case["lab"] = lab
+    ncl = lab[-1] + 1
+    score = [-1] * len(knees)
+    hullspan = [True] * ncl
+    members = [[] for _ in range(ncl)]
+    for j, c in enumerate(lab):
+        members[c].append(j)
+    if mode == "hull":
+        try:
+            hull = np.sort(np.asarray(ch.graham_scan_lower(P), dtype=np.int64))
+        except Exception:
+            hull = None
+    for c, mem in enumerate(members):
+        cl = knees[mem]
+        if len(mem) > 1:
+            meta["maxspan"] = max(meta["maxspan"], int(cl[-1] - cl[0]))
+        if mode == "hull":
+            if hull is not None:
+                a = int(np.searchsorted(hull, cl[0], side="left"))
+                hullspan[c] = bool(a < len(hull) and hull[a] <= cl[-1])
+            continue
+        if len(mem) == 1:
+            score[mem[0]] = 0
+            continue
+        try:
+            if mode == "corner":
+                vals = [0.5 * ((P[k][0] - P[k - 1][0]) * (P[k][1] - P[k + 1][1])) for k in cl]
+                noise = 1e-12 * max(max(abs(v) for v in vals), 1.0)
+                if any(math.isnan(v) or math.isinf(v) for v in vals):
+                    noise = None
+            else:
+                vals, noise = _sc_scores(P, [int(k) for k in cl], mode)
+                if noise is not None:
+                    lib = [float(v) for v in kr.smooth_ranking(P, cl, enums.pick(kr.ClusterRanking, mode))]
+                    if not all(numeric.close(a, b, rel=1e-9, ab=noise) for a, b in zip(vals, lib)):
+                        worst = max(range(len(vals)), key=lambda q: abs(vals[q] - lib[q]))
+                        meta["drift"] = ("scale n=%d %s cluster of %d knees spanning %d points: smooth_ranking gives %r for knee %d, "
+                                         "the independent score is %r" % (n, mode, len(cl), cl[-1] - cl[0], lib[worst], cl[worst], vals[worst]))
+        except Exception:
+            noise = None
+        if noise is None:
+            meta["skipped"] += 1                       # NaN / ill-conditioned scores: structural clauses only
+            continue
+        meta["judged"] += 1
+        if cl[-1] - cl[0] > 4096:
+            meta["wide"] += 1
+        for j, r in zip(mem, numeric.ranks(vals, rel=1e-9, ab=noise)):
+            score[j] = r
+    case["score"] = score
+    case["hullSpan"] = hullspan
+    return case, meta
+
+
+def scale_inputs(ctx):
+    """(items, sizes): recipes x knee layouts x (linkage, t, mode)"""
+    rng = ctx.rng
+    sizes = (sc.sizes(ctx, lo=257, hi=4200, k_quick=2, k_thorough=4) + sc.sizes(ctx, lo=4201, hi=110000, k_quick=3, k_thorough=7)
+             + [20000 + rng.randrange(0, 3000)])                      # always one size between 16384 and 32768
+    sizes = sorted(set(sizes))
+    items = []
+    k = 0
+    for n in sizes:
+        shapes = ["jitter", "texture"] + (rng.sample(SC_SHAPES[2:], 2) if ctx.quick else SC_SHAPES[2:] + ["jitter", "texture"])
+        for shape in shapes:
+            r = {"shape": shape, "n": n, "seed": rng.randrange(1 << 30)}
+            if shape == "jitter":
+                a = rng.randrange(n // 10, n // 2)
+                r.update(a=a, b=min(n - 2, a + rng.randrange(n // 8, n // 2)), amp=rng.choice([20.0, 150.0, 150.0, 400.0]),
+                         dir=rng.choice([-1, -1, 1]))
+            if rng.random() < 0.25:
+                r["xs"] = "ragged"
+            if shape in ("stair", "convex", "valley") and "xs" not in r and rng.random() < 0.4:
+                r["int"] = True                      # integer-valued curve passed as an int64 array
+            _, marks = _sc_build(r)
+            layouts = SC_LAYOUTS if not ctx.quick else (["marks" if marks else "far"] + rng.sample(SC_LAYOUTS[1:], 2))
+            for layout in layouts:
+                kn = _sc_knees(rng, n, marks or [n // 2], layout)
+                if len(kn) < 2:
+                    continue
+                # one call whose clusters are as wide as the knee set allows (ranked mode), then free choices
+                combos = [(rng.choice(LINKAGES), rng.choice([0.7, 1.0, 1.5]), rng.choice(SC_RANKED))]
+                for _ in range(2 if ctx.quick else 3):
+                    combos.append((rng.choice(LINKAGES), rng.choice(SC_T), rng.choice(SC_RANKED + MODES)))
+                if layout == "many":                 # hundreds of clusters (labels and cluster counts beyond 127 / 255)
+                    combos.append((rng.choice(LINKAGES), rng.choice([0.0005, 0.002]), rng.choice(MODES)))
+                for linkage, t, mode in combos:
+                    items.append(("s%d" % k, r, kn, linkage, t, mode))
+                    k += 1
+    items.sort(key=lambda it: -it[1]["n"] * (len(it[2]) if it[5] != "hull" else 200))     # long calls first
+    return items, sizes
+
+
+def _with_pos(c):
+    c = dict(c)
+    where = {k: j + 1 for j, k in enumerate(c["knees"])}
+    c["pos"] = [where.get(v, 0) for v in c["result"]]
+    return c
+
+
+def _scale_selftests():
+    import copy
+    out = [(_with_pos(c), cl) for c, cl in _selftests()]
+    c = _with_pos(STATIC); c["pos"] = [2, 4, 4]; out.append((c, "increasing-subset"))       # knees[pos] is not the result
+    c = _with_pos(STATIC); c["result"] = [4, 10, 12]; c["pos"] = [2, 0, 5]; out.append((c, "increasing-subset"))
+    c = _with_pos(STATIC); c["result"] = [4, 9, 12]; c["pos"] = [2, 0, 5]; out.append((c, "malformed"))   # false absence
+    c = _with_pos(STATIC); c["lab"] = [0, 0, 0, 2, 3]; out.append((c, "malformed"))
+    c = _with_pos(STATIC); c["score"] = [0, -1, 1, 0, 0]; out.append((c, "malformed"))
+    c = _with_pos(STATIC); c["score"] = [-1, -1, -1, 0, 0]; c["result"] = [3, 9, 12]; c["pos"] = [1, 4, 5]; out.append((c, "ok"))
+    c = copy.deepcopy(_with_pos(STATIC)); c["mode"] = "hull"; c["result"] = []; c["pos"] = []; out.append((c, "ok"))
+    return out
+
+
+XSMALL = 40        # scale cases with at most this many knees are also judged by Trace_Cluster
+
+
+def _scale_judge(ctx, cases, selftest=None, ref=None):
+    """Trace_ClusterScale on every case; Trace_Cluster (cubic in the number of knees) on the small ones, as a cross-check
+    of the linear-time clauses: both must reject the same cases with the same clause.  ref: the rejections of Trace_Cluster
+    when the caller has already run it on the small cases (run() does so in the same TLC runs as the small family)."""
+    small = [c for c in cases if len(c["knees"]) <= XSMALL]
+    rej = ctx.trace("Trace_ClusterScale", cases, selftest=selftest, chunk=400)
+    for cid, vs in rej.items():
+        if vs[0][0] == "malformed":
+            raise RuntimeError("scale recorder produced malformed tables for %s: %s" % (cid, vs[0]))
+    if ref is None:
+        ref = ctx.trace("Trace_Cluster", small, chunk=600)
+        ctx.traces -= len(small)                     # the same recorded calls, judged twice
+    for c in small:
+        a = rej.get(c["id"], [["ok"]])[0][0]
+        b = ref.get(c["id"], [["ok"]])[0][0]
+        if a != b:
+            raise RuntimeError("Trace_ClusterScale (%s) and Trace_Cluster (%s) disagree on %s" % (a, b, c))
+    ctx.extra["scale_cross_checked_with_Trace_Cluster"] = ctx.extra.get("scale_cross_checked_with_Trace_Cluster", 0) + len(small)
+    return rej
+
+
+def _scale_case(m):
+    return {"scale": m["scale"], "knees": m["knees"], "linkage": m["linkage"], "t": m["t"], "mode": m["mode"], "cid": m["cid"]}
+
+
+def run_scale(ctx, sizes, rec, ref):
+    cases = [c for c, _ in rec]
+    meta = {c["id"]: m for c, m in rec}
+    rej = _scale_judge(ctx, cases, selftest=_scale_selftests(), ref=ref)
+    st = {"sizes": sizes, "calls": len(cases), "by_shape": {}, "by_mode": {}, "by_linkage": {}, "max_knees": 0, "max_clusters": 0,
+          "widest_multi_member_cluster_points": 0, "clusters_ranked": 0, "clusters_ranked_spanning_over_4096_points": 0,
+          "clusters_left_unranked_nan_or_ill_conditioned": 0, "calls_with_over_256_clusters": 0, "int64_curves": 0, "ragged_x": 0}
+    for c in cases:
+        m = meta[c["id"]]
+        if "drift" in m:
+            ctx.note("DRIFT: " + m["drift"][:300])
+        r = m["scale"]
+        for key, v in (("by_shape", r["shape"]), ("by_mode", m["mode"]), ("by_linkage", m["linkage"])):
+            st[key][v] = st[key].get(v, 0) + 1
+        ncl = c["lab"][-1] + 1
+        st["max_knees"] = max(st["max_knees"], len(c["knees"]))
+        st["max_clusters"] = max(st["max_clusters"], ncl)
+        st["calls_with_over_256_clusters"] += ncl > 256
+        st["widest_multi_member_cluster_points"] = max(st["widest_multi_member_cluster_points"], m["maxspan"])
+        st["clusters_ranked"] += m["judged"]
+        st["clusters_ranked_spanning_over_4096_points"] += m["wide"]
+        st["clusters_left_unranked_nan_or_ill_conditioned"] += m["skipped"]
+        st["int64_curves"] += bool(r.get("int"))
+        st["ragged_x"] += r.get("xs") == "ragged"
+        ctx.count((r, m["knees"], m["linkage"], m["t"], m["mode"]), ncl < len(c["knees"]))
+    ctx.extra["scale"] = st
+    for cid, vs in rej.items():
+        m = meta[cid]
+        ctx.violation(vs[0][0], _scale_case(m), {"verdict": vs[0], "error": m.get("error"), "n": m["n"], "knees": len(m["knees"])},
+                      match="%s:%s" % (vs[0][0], m["mode"]))
+    sm = next((c for c in cases if meta[c["id"]]["wide"] and len(c["knees"]) <= 12), cases[0])
+    ctx.sample({"binding": "T (scale)", "call": {k: v for k, v in meta[sm["id"]].items() if k not in ("skipped", "judged", "wide")}, "case": sm})
+
+
 def run(ctx):
     ctx.rule = ("curves n=8..80 (random families, adversarial, bundled-trace windows) x interior knee subsets (all sizes 2..5 "
                 "sampled for n<=10, random subsets and adjacent runs above) x 4 linkages x t in {0.05,0.1,0.2,0.5,1,1.5} x "
-                "{left, linear, right, hull, corner variant}.  non-trivial: at least one multi-member cluster")
+                "{left, linear, right, hull, corner variant}.  non-trivial: at least one multi-member cluster.  "
+                "scale: curves of 300..10^5 points (sizes just above 256/1024/4096/10^4/16384/32768/65536/10^5 and ~2*10^4; jittered "
+                "lines, textured piecewise-linear trends, miss-ratio-like, staircases, convex corners, valley, spikes, random walks; "
+                "unit / ragged x, float / int64) x knee layouts (structural points, 3..9 knees thousands of points apart, adjacent "
+                "runs, up to 900 random knees) x 4 linkages x t in {0.002..1.5} x the 5 modes, every clause, scores recomputed in "
+                "extended precision on the complete segments, judged by Trace_ClusterScale")
     ctx.assumptions += numeric.ASSUMPTIONS + [
         "cluster labels come from the same linkage function on points[knees] (C11 vouches for it); the ranking score is "
         "recomputed independently (squared Pearson correlation of the left/right segment within the cluster x relative "
         "height below the cluster peak) and compared with knee_ranking.smooth_ranking as a DRIFT note; hull indices from "
         "convex_hull.graham_scan_lower (C18 vouches for it)",
-        "clusters whose score vector contains NaN/inf (numpy.corrcoef on a constant slice) are judged structurally only"]
+        "clusters whose score vector contains NaN/inf (numpy.corrcoef on a constant slice) are judged structurally only",
+        "scale family: the score is recomputed in extended precision (two-pass centred sums over every point of the segment); "
+        "two scores of a cluster closer than max(1e-9, 16*m*eps*(conditioning of the centrings)) x the largest weight share a "
+        "rank, clusters where that bound exceeds 1e-6 (nearly constant segments) or with NaN scores are judged structurally "
+        "only; hull mode at scale uses the library's own lower hull for the span table (C18 vouches for it at scale)"]
     ctx.mc("ClusterFilter", "MC_ClusterFilter" if ctx.quick else "MC_ClusterFilter_5",
            need_actions=("Singleton", "KeepBest", "HullSkip", "HullChoice", "Return"), timeout=1800)
     ctx.mc("ClusterFilter", "MC_ClusterFilter_worst", expect="ClusterOk")
@@ -178,7 +550,12 @@ def run(ctx):
     rec = par.pmap(_record, items)
     cases = [c for c, _ in rec]
     meta = {c["id"]: m for c, m in rec}
-    rej = ctx.trace("Trace_Cluster", cases, selftest=_selftests(), chunk=600)
+    sitems, ssizes = scale_inputs(ctx)
+    srec = par.pmap(_record_scale, sitems, chunksize=1)
+    xs = [c for c, _ in srec if len(c["knees"]) <= XSMALL]           # cross-check of Trace_ClusterScale, same TLC runs
+    rej = ctx.trace("Trace_Cluster", cases + xs, selftest=_selftests(), chunk=600)
+    ctx.traces -= len(xs)
+    ref = {c["id"]: rej.pop(c["id"]) for c in xs if c["id"] in rej}
     for c in cases:
         if "drift" in meta[c["id"]]:
             ctx.note("DRIFT: " + meta[c["id"]]["drift"][:300])
@@ -192,10 +569,16 @@ def run(ctx):
                       {"verdict": vs[0], "error": m.get("error")}, match="%s:%s" % (vs[0][0], m["mode"]))
     sm = next(c for c in cases if len(set(c["lab"])) < len(c["lab"]) and len(c["knees"]) <= 6)
     ctx.sample({"binding": "T", "call": {k: v for k, v in meta[sm["id"]].items() if k != "points"}, "case": sm})
+    run_scale(ctx, ssizes, srec, ref)
 
 
 def replay(ctx, obj):
     c = obj["case"]
+    if "scale" in c:
+        case, m = _record_scale((c.get("cid", "replay"), c["scale"], c["knees"], c["linkage"], c["t"], c["mode"]))
+        for cid, vs in _scale_judge(ctx, [case]).items():
+            ctx.violation(vs[0][0], c, {"verdict": vs[0], "error": m.get("error"), "n": m["n"], "knees": len(m["knees"])})
+        return
     case, m = _record((c.get("cid", "replay"), c["points"], c["knees"], c["linkage"], c["t"], c["mode"]))
     rej = ctx.trace("Trace_Cluster", [case])
     for cid, vs in rej.items():
